@@ -100,7 +100,7 @@
 (*   pc    : "celltab" / "cell" / "celldone" (ghost: the cell table) |     *)
 (*           "tab" (tables to be made) | "sort" |                          *)
 (*           "cluster" | "open" | "test" | "crash" | "done" | "cand" |     *)
-(*           "out" | "badtrace" | "cache" (second machine, see below)      *)
+(*           "out" | "badtrace" | "cache" / "own" (2nd / 3rd machine)      *)
 (*   order : the sorted pairs, order[x+1] = <<N, f, ha, hb, D, rk, lo, sm>>*)
 (*           : c2as[x] = N/sqrt(D), the flat index order[x], h1[hi[x]],    *)
 (*           h2[hj[x]], and (filled in by Cluster) the rank of the pair's  *)
@@ -124,6 +124,9 @@
 (*   CloseBlock | Finish | Lookup | Dedup                                  *)
 (*   second machine (INIT InitCache, NEXT NextCache): CGet(key) | CRetol   *)
 (*   - the getanglehkls cache protocol, invariant CacheFresh               *)
+(*   third machine (INIT InitOwn, NEXT NextOwn): OScribP | ORings |       *)
+(*   OOrient(s, m) | OScribG - ownership of the constructor's argument and *)
+(*   of the results handed out, invariants Owned, ResultsStand             *)
 (*                                                                         *)
 (* TIE ORDER  np.argsort is not stable and mathematically equal cosines    *)
 (* differ in the last bits, so the order inside a block is not determined  *)
@@ -168,6 +171,10 @@
 (*               or between the certified bounds                           *)
 (*   CacheFresh  an entry handed out by getanglehkls was computed under    *)
 (*               the ringtol in force                                      *)
+(*   Owned       the object holds the numbers it was made from and makes   *)
+(*               its rings from them, whatever the caller's array holds    *)
+(*   ResultsStand  every result handed out still answers the observation   *)
+(*               it was made from, after later calls and overwrites        *)
 (*                                                                         *)
 (* BOUNDS  Cells (25 named lattices: cubic P/I/F, tetragonal P/I and a     *)
 (* pseudo-symmetric one, hexagonal P/R, orthorhombic P/C/F and a pseudo-   *)
@@ -608,6 +615,51 @@ NextCache == CRetol \/ \E k \in CKeys : CGet(k)
 CacheFresh == (pc = "cache" /\ cs.ret # <<>> /\ cs.hist[Len(cs.hist)][1] = "get") => cs.ret[2] = cs.tol
 EmitCache == (pc = "cache" /\ Len(cs.hist) = CDEPTH) => PrintT("@@" \o ToJson([kind |-> "cache", hist |-> cs.hist]))
 
+(* ---------------- ownership: the object, the caller's arrays, the results handed out ------------------ *)
+\* A third, tiny machine on the same variables (INIT InitOwn / NEXT NextOwn, Orient_own.cfg).  A unit cell is a
+\* snapshot of the six numbers it was made from, and what orient() hands out is a snapshot of its answer: whatever the
+\* caller does afterwards to the arrays he passed in (the parameter array: a buffer filled for phase after phase, a
+\* row / column / slice of a table of cells; the two g-vector arrays) changes neither the object nor an earlier result.
+\* Contents are version numbers: 1 = the numbers of the cell / of the first observation; every overwrite by the caller
+\* makes a new version (a very different cell, other g-vectors).
+\* cs = [how, pbuf, par, box, gbuf, out, hist]
+\*   how  : what the constructor was given (OwnHows: a float64 array in four layouts, or a list)
+\*   pbuf : version now in the caller's parameter array;   par : version the object holds
+\*   box  : version the current ring table (hkl search box, rings) was made from, 0 = no rings yet
+\*   gbuf : version now in the caller's g arrays
+\*   out  : the results handed out so far, <<g version they were made from, version they hold now, box version used>>
+\*   hist : the operations (emitted for replay): <<"scribp">> the caller overwrites his parameter array |
+\*          <<"rings">> makerings | <<"orient", s, m>> the caller fills his g arrays with observation s of the grain
+\*          and calls orient in lookup mode m | <<"scribg">> the caller overwrites his g arrays
+\* The harness replays every history on a real cell and re-judges, after every operation, the object (parameters, B,
+\* ring table) and every result handed out so far (the very arrays, not copies).
+OwnHows == {"buffer", "row", "column", "tail", "list"}
+ODEPTH == 5
+OLast(h) == IF h = <<>> THEN "-" ELSE h[Len(h)][1]
+InitOwn == /\ pc = "own" /\ tab = <<>> /\ Blank
+           /\ cs \in [how : OwnHows, pbuf : {1}, par : {1}, box : {0}, gbuf : {0}, out : {<<>>}, hist : {<<>>}]
+OScribP == /\ pc = "own" /\ Len(cs.hist) < ODEPTH /\ OLast(cs.hist) # "scribp"
+           /\ cs' = [cs EXCEPT !.pbuf = @ + 1, !.hist = Append(@, <<"scribp", 0, 0>>)]      \* par, box, out: untouched
+           /\ UNCHANGED <<tab, pc, order, inds, bi, p, j, kept, first, keepLater>>
+ORings  == /\ pc = "own" /\ Len(cs.hist) < ODEPTH /\ OLast(cs.hist) # "rings"
+           /\ cs' = [cs EXCEPT !.box = cs.par, !.hist = Append(@, <<"rings", 0, 0>>)]       \* from the object's own numbers
+           /\ UNCHANGED <<tab, pc, order, inds, bi, p, j, kept, first, keepLater>>
+OOrient(s, m) == /\ pc = "own" /\ Len(cs.hist) < ODEPTH /\ cs.box # 0
+                 /\ cs' = [cs EXCEPT !.gbuf = @ + 1, !.out = Append(@, <<cs.gbuf + 1, cs.gbuf + 1, cs.box>>),
+                                     !.hist = Append(@, <<"orient", s, m>>)]
+                 /\ UNCHANGED <<tab, pc, order, inds, bi, p, j, kept, first, keepLater>>
+OScribG == /\ pc = "own" /\ Len(cs.hist) < ODEPTH /\ OLast(cs.hist) = "orient"
+           /\ cs' = [cs EXCEPT !.gbuf = @ + 1, !.hist = Append(@, <<"scribg", 0, 0>>)]      \* out: untouched
+           /\ UNCHANGED <<tab, pc, order, inds, bi, p, j, kept, first, keepLater>>
+NextOwn == OScribP \/ ORings \/ OScribG \/ \E s \in {1, 2}, m \in {0, 2} : OOrient(s, m)
+\* the object keeps the numbers it was made from, rings are made from them, every result still is the answer to the
+\* observation it was made from
+Owned       == pc = "own" => (cs.par = 1 /\ cs.box \in {0, 1})
+ResultsStand == pc = "own" => \A i \in DOMAIN cs.out : cs.out[i][1] = cs.out[i][2] /\ cs.out[i][3] = 1
+\* (histories that end with the caller's last word: the harness re-judges everything after the last operation)
+EmitOwn == (pc = "own" /\ Len(cs.hist) = ODEPTH /\ cs.out # <<>>) =>
+              PrintT("@@" \o ToJson([kind |-> "own", how |-> cs.how, hist |-> cs.hist]))
+
 (* ---------------- the property ----------------------------------------------------------------------- *)
 AtEnd == pc \in {"done", "cand", "out"}
 KeptPairs == { Ord(kept[k]) : k \in DOMAIN kept }
@@ -664,7 +716,7 @@ ScaleLaw == pc = "celldone" => \A m \in ScaleMul : \E c2 \in {ScaledCell(cell, m
 \* the harness' crange values never put a kept pair exactly on the boundary |cos_k - cos_obs| = crange
 \* (there the float comparison of the code would be decided by rounding), nor between the certified bounds
 NoBoundaryTie == pc = "cand" => \A k \in DOMAIN kept : lmode = 0 \/ Decided(kept[k], BlockStart(obs), lmode)
-TypeOK == /\ pc \in {"cache", "celltab", "tab", "cell", "celldone", "sort", "cluster", "open", "test", "crash", "done", "cand", "out", "badtrace"}
+TypeOK == /\ pc \in {"cache", "own", "celltab", "tab", "cell", "celldone", "sort", "cluster", "open", "test", "crash", "done", "cand", "out", "badtrace"}
           /\ pc \in {"open", "test"} => (p <= N /\ (bi <= Len(inds) => p <= I))
 
 (* ---------------- emission --------------------------------------------------------------------------- *)
